@@ -119,7 +119,7 @@ var specs = map[string]*propSpec{
 		ID: "C07",
 		Rule: "case idx -> expression AST of depth 1..6 over literals (incl. 0 and leading zeros), + - * / %, unary sign runs of length 1..5 (at the start, after an operator, after '(' and introduced through EQU substitution, e.g. x equ -1 ... 5*-x), redundant parentheses, " +
 			"0..3 EQUs (negative, compound 'a+b' so that textual substitution matters, chained), the four predefined constants under varying configurations, labels; rendered with no/single/random blanks and placed in one of four positions: " +
-			"operand fields of 'dat #e1, #e2' (6/10; under core size 2^34 the value is recovered exactly, under small M its reduction), 'org e' in front of 40 instructions, 'i for e ... rof' (count = emitted instructions), ';assert e' (accept <=> value != 0). " +
+			"operand fields of 'dat #e1, #e2' (6/10; under core size 2^34 the value is recovered exactly, under small M its reduction), 'org e' / 'end e' with 40 instructions, 'i for e ... rof' (count = emitted instructions), ';assert e' (accept <=> value != 0). " +
 			"The oracle is an independent big.Int precedence-climbing evaluator over the textually substituted token list; division by zero must be an error; values beyond 32 bits are only required not to panic. " +
 			"non-trivial = expression with a sign run >= 2, a negative / or % operand, or a sign introduced through an EQU; distinct by (position, AST shape)",
 		Assumptions: append([]string{
